@@ -21,6 +21,7 @@ import mpyc.runtime as rtmod  # noqa: E402
 import warnings  # noqa: E402
 warnings.filterwarnings("ignore", category=RuntimeWarning)
 OPS = {}
+DIRECTED = {}     # one fixed input per OPEN known finding (not part of the random sweep)
 CALLS = {}
 F = 16           # fractional bits of the fixed-point type (SecFxp(32, 16); NB SecFxp(24, 8) division returns 0 even for scalars)
 ULP = 2.0 ** -F
@@ -248,6 +249,13 @@ def op(name, kinds, weight=1):
     return deco
 
 
+def directed(name, kind):
+    def deco(f):
+        DIRECTED[name] = {'plan': f, 'kinds': [kind]}
+        return f
+    return deco
+
+
 def walk_declared(obj):
     """declared shapes of the placeholders in a result structure"""
     if isinstance(obj, sectypes.SecureArray):
@@ -308,7 +316,7 @@ def run_case(case):
     name, kind = case['op'], case['kind']
     rng = random.Random(case['seed'])
     ALLOW0[0] = kind != 'fxp'
-    plan = OPS[name]['plan'](rng, kind, case.get('force'))
+    plan = (OPS.get(name) or DIRECTED[name])['plan'](rng, kind, case.get('force'))
     m, no_prss = case['m'], case['no_prss']
     res = {'case': case, 'status': 'ok', 'lean': [], 'key': plan.get('key'), 'nontrivial': plan.get('nontrivial', True),
            'tags': plan.get('tags', []), 'program': plan.get('desc')}
@@ -382,8 +390,6 @@ def run_case(case):
         r = fail(res, 'declared-shape', msg, expected=None, observed=short(plain))
         if plan.get('finding_key'):
             r['finding_key'] = plan['finding_key']
-        elif decl == (1,) and to_np(plain).shape == ():
-            r['finding_key'] = 'np_0d_array_scalar_operand_shape'
         return r
     exp = plan['ref'](P)
     tol = plan.get('tol', 0.0) if kind == 'fxp' else 0.0
@@ -391,9 +397,7 @@ def run_case(case):
     msg = chk(plain, exp) if chk else same(kind, plain, exp, tol)
     if msg:
         r = fail(res, 'numpy', f'opened result differs from NumPy: {msg}', expected=short(exp), observed=short(plain))
-        if msg.startswith('shape (1,) expected ()'):
-            r['finding_key'] = 'np_0d_array_scalar_operand_shape'
-        elif plan.get('finding_key_numpy'):
+        if plan.get('finding_key_numpy'):
             r['finding_key'] = plan['finding_key_numpy']
         return r
     if sc is not None:
